@@ -9,8 +9,9 @@ namespace Lockable
 
 /-- **Snapshot**: one pending acquisition for every key that has a value or is locked when the call is made —
 exactly the keys of the map, once each, in iteration order; a key that appears only later is not among them.
-Nothing else changes (values, order); the other keys and the counting calls stay usable (every action
-is total and touches only its own key: C03_keys_independent). -/
+Nothing else changes (values, order). (That other keys and the counting calls stay usable while items are pending is not
+part of this statement: in the model every action is total and touches only its own key, `C03_keys_independent`; on the
+code it is what the correspondence and the stress scenario "many held keys" check.) -/
 theorem C11_snapshot (kind : Kind) (as : List Act) (hids : List Nat) :
     let s := run (State.init kind) as
     s.freshList hids = true → s.order.length ≤ hids.length →
